@@ -26,8 +26,32 @@ func beginConc() int {
 	sessionCounter++
 	if schedSeed != 0 {
 		lz4.VerifHookConfigure(schedSeed*1000003+sessionCounter, true, true, true)
+	} else {
+		// no perturbation, no poisoning: the event log only (pool discipline is checked for every session)
+		lz4.VerifHookConfigure(sessionCounter, false, false, true)
 	}
 	return runtime.NumGoroutine()
+}
+
+// poolDiscipline reads the Get/Put events of the session: a buffer is returned to the pools at most once
+// per time it was handed out (a second Put makes two later owners share it).
+func poolDiscipline() string {
+	in := map[uint64]bool{}
+	for _, e := range lz4.VerifHookEvents() {
+		if e[1] == 0 {
+			continue // Put(nil) is legal and pools nothing
+		}
+		switch e[0] {
+		case 14: // EvGet
+			delete(in, e[1])
+		case 12: // EvPut
+			if in[e[1]] {
+				return "DOUBLE-PUT"
+			}
+			in[e[1]] = true
+		}
+	}
+	return ""
 }
 
 // leakCheck waits briefly for the library goroutines to finish; returns a note if some remain.
